@@ -11,7 +11,7 @@ from .core import CONTRACT_METHODS, CONTRACT_PROPS
 from .expr import cat, lit, norm_atoms
 from .front import ClassInfo, FuncInfo
 from .smt import FALSE, TRUE, conj, disj
-from .state import Effect, Frame, MergeAbort, PathEnd, Unsupported
+from .state import Effect, Frame, MergeAbort, PathEnd, Restart, Unsupported
 from .values import (B, CallA, Dyn, Elems, Fn, HObj, I, IteA, IteV, JoinA, K, Lit, MapPart, Obj, OpA, PreSeq,
                      QuoteA, S, Sym, Tu, V)
 
@@ -106,6 +106,9 @@ class CallMixin:
 
     # ------------------------------------------------------------------ package functions
     def call_method(self, fi: FuncInfo, recv: V, args, kwargs):
+        if fi.name in self.contract_self_methods and self.inline_stack and \
+                self.inline_stack[0].name != fi.name and fi not in self.inline_stack[:1]:
+            return self.contract_call(recv, fi.name, args, kwargs)
         return self.call_function(fi, [recv] + list(args), kwargs, self_val=recv)
 
     def call_function(self, fi: FuncInfo, args, kwargs, self_val=None) -> V:
@@ -144,6 +147,13 @@ class CallMixin:
             # recursion: use the function's own contract (induction hypothesis)
             recv = self_val if self_val is not None else (args[0] if args else None)
             return self.contract_call(recv, fi.name, args[1:] if recv is not None else args, kwargs, rec=fi)
+        if fi in self.inline_stack and fi.name == "wrap_constant":
+            # data-structure recursion (lists of lists ...): contract of wrap_constant - the result is a Node,
+            # either the argument itself or a freshly allocated wrapper
+            p = self.fresh_name("wrap_constant")
+            tg = self.tags.of_spec("Node")
+            self.symspec[p] = "Node"
+            return Sym(p, tg)
         if fi in self.inline_stack and fi.name in ("__getattr__", "_getattr"):
             # dynamic attribute lookup through a chain of wrappers (Not(Not(..))): opaque result
             return Sym(self.fresh_name("getattr-chain"), None)
@@ -164,16 +174,35 @@ class CallMixin:
         self.frames.append(fr)
         self.inline_stack.append(fi)
         try:
-            try:
-                self.exec_block(node.body)
-            except PathEnd as pe:
-                if pe.kind == "return":
-                    return pe.value if pe.value is not None else K(None)
-                raise
-            return K(None)
+            return self.run_frame(fr, node.body)
         finally:
             self.inline_stack.pop()
             self.frames.pop()
+
+    def run_frame(self, fr, body):
+        """execute a function body in frame fr; early returns merged by merge_if_ret are folded into the result"""
+        fr.entry_merge_depth = self.merge_depth
+        try:
+            self.exec_block(body)
+            val = K(None)
+        except PathEnd as pe:
+            if pe.kind == "return":
+                val = pe.value if pe.value is not None else K(None)
+            else:
+                if fr.pending and pe.kind == "raise":
+                    raise Restart({p[3] for p in fr.pending})
+                raise
+        for rg, rv, eidx, _key in reversed(fr.pending):
+            ng = z3.Not(rg)
+            for ef in self.st.effects[eidx:]:
+                ef.guard = ng if ef.guard is None else z3.And(ng, ef.guard)
+            for i in range(len(self.st.pc) - 1, -1, -1):
+                if self.st.pc[i] is ng or self.st.pc[i].eq(ng):
+                    del self.st.pc[i]
+                    break
+            val = self.ite_val(rg, rv, val)
+        fr.pending = []
+        return val
 
     def call_merged(self, fi, fr0):
         """execute a callee as one mergeable unit: all its return paths are joined into one Ite value, so that
@@ -185,18 +214,26 @@ class CallMixin:
             fr = Frame(fr0.func, fr0.cls, dict(fr0.locals), fr0.self_val, fr0.module)
             self.frames.append(fr)
             self.inline_stack.append(fi)
-            try:
-                self.exec_block(fi.node.body)
-            except PathEnd as pe:
-                if pe.kind == "return":
-                    return pe.value if pe.value is not None else K(None)
-                raise
-            return K(None)
+            return self.run_frame(fr, fi.node.body)
 
         outs = self.sub_explore(run, base.snapshot(), limit=128)
-        if outs is None or not outs or any(o.status != "normal" for o in outs):
+        if outs is None or not outs or any(o.status not in ("normal", "raise") for o in outs):
             self.nomerge_calls.add(fi.qual)
+            self.memo.clear()
             return None
+        raising = [o for o in outs if o.status == "raise"]
+        if raising:
+            # exceptional exits: fork the caller on "some raising path is taken", join the rest
+            for o in raising:
+                g = conj(o.state.pc[nb:])
+                if self.decide(g):
+                    self.adopt_heap(base, o.state)
+                    base.effects.extend(o.state.effects[ne:])
+                    base.writes.extend(o.state.writes[nw:])
+                    raise PathEnd("raise", o.value)
+            outs = [o for o in outs if o.status == "normal"]
+            if not outs:
+                raise PathEnd("infeasible")
         if len(outs) == 1 and not outs[0].decisions:
             o = outs[0]
             self.adopt_heap(base, o.state)
@@ -396,7 +433,23 @@ class CallMixin:
 
     def bi_isinstance(self, args, kwargs):
         v, t = args
+        if isinstance(t, Sym):
+            return B(self.smt.atom(f"isinstance!{self.ident(v)}|{t.path}"))
         return self.mk_bool(self.isinstance_formula(v, t))
+
+    def bi_sum(self, args, kwargs):
+        parts = self.iter_parts(args[0], ordered=False)
+        total = z3.IntVal(0)
+        for p in parts:
+            if isinstance(p, Elems):
+                for x in p.items:
+                    e = self.int_of(x)
+                    if e is None:
+                        raise Unsupported("sum of non-int")
+                    total = total + e
+            else:
+                total = total + self.smt.int(f"sum!{self.ident_part(p)}")
+        return self.mk_int(total)
 
     def type_targets(self, t) -> tuple:
         if isinstance(t, Tu):
@@ -481,7 +534,7 @@ class CallMixin:
                 raise PathEnd("raise", ("TypeError", f"len() of {v.path}"))
         if isinstance(v, Obj) and self.hobj(v).kind == "inst":
             raise PathEnd("raise", ("TypeError", f"len() of {self.hobj(v).path}"))
-        return self.mk_int(self.parts_len(self.iter_parts(v)))
+        return self.mk_int(self.parts_len(self.iter_parts(v, ordered=False)))
 
     def shape_len(self, s: S):
         total = z3.IntVal(0)
@@ -540,6 +593,7 @@ class CallMixin:
         raise Unsupported("abs")
 
     def bi_max(self, args, kwargs):
+        args = [(a.a if self.decide(a.c) else a.b) if isinstance(a, IteV) else a for a in args]
         es = [self.int_of(a) for a in args]
         if all(e is not None for e in es) and len(es) == 2:
             return self.mk_int(z3.If(es[0] >= es[1], es[0], es[1]))
@@ -560,7 +614,11 @@ class CallMixin:
     def bi_getattr(self, args, kwargs):
         obj, name = args[0], self.const_of(args[1])
         default = args[2] if len(args) > 2 else None
-        return self.get_attr(obj, name, default=default)
+        r = self.get_attr(obj, name, default=default)
+        if name == "immutable" and getattr(self, "pre_immutable", False):
+            # precondition of the builder contract (C01): the receiver is in the default immutable mode
+            self.assume(self.truth(r))
+        return r
 
     def bi_hasattr(self, args, kwargs):
         obj, name = args[0], self.const_of(args[1])
@@ -605,7 +663,7 @@ class CallMixin:
         return self.mk_bool(self.quant(args[0], any_=False))
 
     def quant(self, seq, any_):
-        parts = self.iter_parts(seq)
+        parts = self.iter_parts(seq, ordered=False)
         fs = []
         for p in parts:
             if isinstance(p, Elems):
@@ -636,10 +694,10 @@ class CallMixin:
         return Tu(self.iter_parts(args[0]) if args else ())
 
     def bi_set(self, args, kwargs):
-        return self.new_list_parts(self.iter_parts(args[0]) if args else (), kind="set")
+        return self.new_list_parts(self.iter_parts(args[0], ordered=False) if args else (), kind="set")
 
     def bi_sorted(self, args, kwargs):
-        parts = self.iter_parts(args[0])
+        parts = self.iter_parts(args[0], ordered=False)
         try:
             items = sorted(self.const_of(i) for p in parts for i in p.items) if all(
                 isinstance(p, Elems) for p in parts) else None
@@ -846,6 +904,8 @@ class CallMixin:
 
     def data_method(self, v: Sym, name, args, kwargs):
         """method of opaque user data (str values etc.)"""
+        if name in CONTRACT_METHODS and name not in ("isoformat",):
+            return self.contract_call(v, name, args, kwargs)
         if name == "replace" and len(args) == 2 and (v.tags == frozenset({"str"}) or v.label in ("value", "name")):
             return S((OpA("replace", (self.to_shape(v), args[0], args[1])),))
         if name in ("lower", "upper"):
@@ -861,7 +921,7 @@ class CallMixin:
             return Sym(f"{v.path}.replace({','.join(sorted(kwargs))})", v.tags, v.label)
         if name == "get":
             return Sym(f"{v.path}.get({self.ident(args[0])})", None, v.label)
-        self.st.notes.append(f"opaque-data-method:{name}")
+        self.note(f"opaque-data-method:{name}")
         return Sym(f"{v.path}.{name}()", None, v.label)
 
     def str_format(self, tmpl: S, args, kwargs) -> S:
